@@ -9,6 +9,38 @@ MODELLED = ('Trusted: Coq 8.16.1 kernel (no axioms: every theorem in coq/Props/%
             'the Python harness abstraction/canonicalisation. ')
 
 CHECKS = {
+    'C01': dict(
+        text='Theorem closure: for every well-typed abstract column (any length, null pattern, values incl. +-inf), '
+             'strict or sloppy, any epsilon, every constraint produced by the discovery rules verifies on that column '
+             '(rex relative to C03). The model is tied to tdda by the C02/C07 correspondence layers and here by '
+             'end-to-end runs discover_df -> {dict, .tdda file} -> verify_df/detect_df x repair on/off on generated frames.',
+        note='pandas aggregation/dtype inference, .tdda file I/O and rexpy are modelled or oracles; dtype classes that '
+             'tdda does not classify as a recognised type under pandas 3 are recorded findings.',
+        technique='Coq proof (closure_proof over discovery rules and verifiers) + end-to-end differential runs',
+        design='7 C01'),
+    'C02': dict(
+        text='One theorem per constraint kind equating the operational verifier (aggregate, then compare) with the '
+             'documented meaning quantified over all non-null values (min/max for closed/open/fuzzy precision, sign, '
+             'string lengths, max_nulls, no_duplicates, type strict/sloppy, rex over an oracle), plus missing-field, '
+             'null-value, totals and independence theorems; verify_df on boundary-directed generated (frame, constraint '
+             'set) pairs is compared verdict-by-verdict with the extracted model and with an independent statement of '
+             'the documented meaning, including totals, to_frame() and str().',
+        note='IEEE multiplication b*(1+-eps) and re.match are oracle values; pandas aggregates are validated by the '
+             'correspondence, not proved; allowed_values is covered by correspondence and oracle (its fast-path '
+             'pigeonhole lemma is not yet proved).',
+        technique='Coq proof (verify_*_spec iff-theorems over exact-integer reals) + extracted-model correspondence '
+                  'with verify_df',
+        design='7 C02'),
+    'C07': dict(
+        text='Theorems that each discovery rule reports the exact statistic: min/max are members and bounds of the '
+             'data, lengths are attained extremes, the sign class holds and no stronger one does, max_nulls is the null '
+             'count iff 0 or 1, no_duplicates iff a string/int field has >1 non-null values all distinct, nothing but '
+             'the type for empty data; MAX_CATEGORIES is regenerated from the source and pinned. discover_df and '
+             'discover_db_table (SQLite) are compared with the extracted model and a direct statement of the property.',
+        note='pandas / SQLite aggregation is not modelled (validated by correspondence on generated frames and tables); '
+             'the allowed_values rule is checked by correspondence and oracle.',
+        technique='Coq proof (tightness of each discovery rule) + translator-pinned threshold + differential runs',
+        design='7 C07'),
     'C10': dict(
         text='Theorems over a state machine (regeneration table, file system, assertions, argv parsing) that hold '
              'in every state of every history: only a regenerating step writes, and only its own reference; '
